@@ -17,14 +17,32 @@ func openDebug(in *Interp) {
 		if level < 1 {
 			unspecified("debug level < 1")
 		}
-		fr := in.frameAt(level + 1)
-		if fr == nil {
-			return nil
+		// levels are counted as in 5.1 (and by LState.GetStack): an activation that was replaced by a tail call still
+		// counts as a level, without anything to report; a query that lands on such a level is not decided here
+		frames := in.th.frames
+		idx, l := len(frames)-1, level+1 // frames[len-1] is the debug function itself
+		for {
+			if idx < 0 {
+				return nil
+			}
+			fr := frames[idx]
+			if l == 1 {
+				if fr.cl == nil {
+					unspecified("debug level names a host function")
+				}
+				return fr
+			}
+			l--
+			if fr.cl != nil {
+				l -= fr.tails
+			} else if fr.viaTail {
+				unspecified("debug level crosses a host function in tail position")
+			}
+			if l < 1 {
+				unspecified("debug level names an activation that a tail call replaced")
+			}
+			idx--
 		}
-		if fr.cl == nil || in.tailBelow(level+1) {
-			unspecified("debug level names a host function or crosses a tail call")
-		}
-		return fr
 	}
 	in.reg(D, "getinfo", func(in *Interp, a []Value) []Value {
 		t := NewTable()
